@@ -128,9 +128,18 @@ func (x *XmlNode) ContentTrim() string {
 
 func (x *XmlNode) field(m meta.Leafable) (string, bool) {
 	if ndx := x.Find(0, m); ndx >= 0 {
-		return x.Nodes[ndx].ContentTrim(), true
+		return x.Nodes[ndx].leafText(m), true
 	}
 	return "", false
+}
+
+// leafText is the value of a leaf element. White space is part of a string value, for all
+// other types white space around the value is not significant.
+func (x *XmlNode) leafText(m meta.Leafable) string {
+	if m.Type().Format().Single() == val.FmtString {
+		return string(x.Content)
+	}
+	return x.ContentTrim()
 }
 
 func (x *XmlNode) Field(r node.FieldRequest, hnd *node.ValueHandle) error {
@@ -145,12 +154,12 @@ func (x *XmlNode) Field(r node.FieldRequest, hnd *node.ValueHandle) error {
 		// The XML elements representing list entries MAY be interleaved with elements
 		// for siblings of the list
 		for ndx >= 0 {
-			found = append(found, x.Nodes[ndx].ContentTrim())
+			found = append(found, x.Nodes[ndx].leafText(r.Meta))
 			ndx = x.Find(ndx+1, r.Meta)
 		}
 		hnd.Val, err = node.NewValue(r.Meta.Type(), found)
 	} else {
-		hnd.Val, err = node.NewValue(r.Meta.Type(), x.Nodes[ndx].ContentTrim())
+		hnd.Val, err = node.NewValue(r.Meta.Type(), x.Nodes[ndx].leafText(r.Meta))
 	}
 	return err
 }
